@@ -34,12 +34,22 @@ Definition brun (ops : list op) (b : bstate) : bstate :=
 (* ------------------------------------------------------------------ probes *)
 (* what a probe reads: F0, Z0 (centre state) or any function of the state
    (Probe("expression") / Probe(callable)) *)
-Inductive quantity : Type := QF0 | QZ0 | QFun (f : sm -> S).
+Inductive quantity : Type :=
+| QF0 | QZ0 | QFun (f : sm -> S)
+| QTuple (fs : list (sm -> list S)).   (* Probe("(F0, Z0)"), Probe(lambda sm: (sm.F, sm.Z)): tuple / list of arrays *)
 Definition qeval (q : quantity) (s : sm) : S :=
   match q with
   | QF0 => fp (centre (st s))
   | QZ0 => fz (centre (st s))
   | QFun f => f s
+  | QTuple _ => k0                      (* a tuple has no single value: see [qarr] *)
+  end.
+(* the array a probe reads on a batch: one number per member; for a tuple the components one after
+   the other (component-major, as numpy stacks them), each over the batch, each possibly an array *)
+Definition qarr (q : quantity) (b : bstate) : list S :=
+  match q with
+  | QTuple fs => flat_map (fun f => flat_map f b) fs
+  | _ => map (qeval q) b
   end.
 
 (* a recorded value: 1-D array over the batch axis, or a single number (0-d) after reduction *)
@@ -76,7 +86,7 @@ Definition reduces (p : probe) : bool :=
 
 (* Adc._acquire: attribute, times weights, summed when reducing *)
 Definition pacq (p : probe) (b : bstate) : value :=
-  let arr := map (qeval (pq p)) b in
+  let arr := qarr (pq p) b in
   let arr := match pweights p with None => arr | Some w => bcast2 kmul arr w end in
   if reduces p then [ksum arr] else arr.
 
@@ -340,7 +350,7 @@ Definition modify_ok_multi (l : list tree) (P : mparams) (obs : list item) (time
 
 End Run.
 
-Arguments QF0 {S}. Arguments QZ0 {S}. Arguments QFun {S}.
+Arguments QF0 {S}. Arguments QZ0 {S}. Arguments QFun {S}. Arguments QTuple {S}. Arguments qarr {S}.
 Arguments mkProbe {S}. Arguments pq {S}. Arguments pweights {S}. Arguments preduce {S}. Arguments pphasor {S}.
 Arguments qeval {S}. Arguments bcast2 {S}. Arguments ksum {S}. Arguments pacq {S}. Arguments ppost {S}.
 Arguments acquire {S}. Arguments reduces {S}. Arguments bapply {S}. Arguments brun {S}.
